@@ -105,6 +105,7 @@ def run_reference(sc):
 
 def sig(sc, aspect, mode, extra=None):
     s = {"aspect": aspect, "mode": mode, "pot": sc["potential"]["kind"], "aberrations": bool(sc["aberrations"]),
+         "ensemble_mean": sc["potential"].get("fp", {}).get("ensemble_mean"),
          "interpolation": sc["interpolation"] > 1, "dets": "+".join(sorted({d["kind"] for d in sc["detectors"]}))}
     if extra:
         s.update(extra)
